@@ -110,7 +110,20 @@ type rec struct {
 	conflict bool
 	owners   uint32 // bit set over address indexes
 	expiry   int64
-	refresh  int64
+	refresh  uint32 // set (bit i = TTLChoices[i]) of the TTLs this record was registered with; which of them a
+	// refresh restarts is not pinned down by the statement once a group has been joined with different TTLs
+}
+
+// TTLChoices are the TTL values the harness uses (index = bit in rec.refresh).
+var TTLChoices = [...]int64{0, 20e9, 60e9, 24 * 3600e9}
+
+func ttlBit(ttl int64) uint32 {
+	for i, t := range TTLChoices {
+		if t == ttl {
+			return 1 << uint(i)
+		}
+	}
+	panic("harness: TTL outside TTLChoices")
 }
 
 // State is immutable; key is its canonical form.
@@ -125,7 +138,7 @@ func mk(now int64, recs []rec) *State {
 	var b strings.Builder
 	fmt.Fprintf(&b, "%d", now)
 	for _, r := range recs {
-		fmt.Fprintf(&b, "|%d,%v,%v,%x,%d,%d", r.name, r.group, r.conflict, r.owners, r.expiry, r.refresh)
+		fmt.Fprintf(&b, "|%d,%v,%v,%x,%d,%x", r.name, r.group, r.conflict, r.owners, r.expiry, r.refresh)
 	}
 	return &State{now: now, recs: recs, key: b.String()}
 }
@@ -243,7 +256,7 @@ func stepAbsent(s *State, in In, out Out, stale bool) []*State {
 		if !out.OK {
 			return nil
 		}
-		return []*State{s.with(rec{name: in.Name, group: in.Group, owners: 1 << uint(in.Addr), expiry: s.now + in.TTL, refresh: in.TTL})}
+		return []*State{s.with(rec{name: in.Name, group: in.Group, owners: 1 << uint(in.Addr), expiry: s.now + in.TTL, refresh: ttlBit(in.TTL)})}
 	default: // Query, Release, Refresh, Mark on an absent name: error, no change
 		if out.OK {
 			return nil
@@ -262,6 +275,7 @@ func stepPresent(s *State, r rec, in In, out Out) []*State {
 			}
 			n := r
 			n.owners |= bit
+			n.refresh |= ttlBit(in.TTL)
 			a := n
 			a.expiry = s.now + in.TTL
 			// whether a (re-)registration of a group member restarts the TTL is not pinned down
@@ -272,6 +286,7 @@ func stepPresent(s *State, r rec, in In, out Out) []*State {
 			// the owner of a unique name registers it again: success (refresh) is acceptable
 			n := r
 			n.expiry = s.now + in.TTL
+			n.refresh |= ttlBit(in.TTL)
 			res = append(res, s.with(n))
 		}
 		if !out.OK {
@@ -325,9 +340,15 @@ func stepPresent(s *State, r rec, in In, out Out) []*State {
 		if !out.OK {
 			return nil
 		}
-		n := r
-		n.expiry = s.now + r.refresh
-		return []*State{s.with(n)}
+		var res []*State
+		for i, t := range TTLChoices {
+			if r.refresh&(1<<uint(i)) != 0 {
+				n := r
+				n.expiry = s.now + t
+				res = append(res, s.with(n))
+			}
+		}
+		return res
 	case OpMark:
 		if !out.OK {
 			return nil
